@@ -7,14 +7,14 @@ PROPERTY = "C06"
 LEVEL = "exploration"
 RULE = (
     "cases = (stack of 1-4 layers over a manual base with a recording tap below every layer, or a combinator expression over "
-    "recording source futures; 1-3 submissions whose callables may block on a gate so that 'running' is a program state; 1-3 "
-    "threads issuing cancel() - possibly repeatedly - at generated virtual times; a runner thread that runs/completes the manual "
-    "jobs; tape; clock mode). Enumerated: catalogue programs (cancel || hand-over, cancel || completion, cancel between retries, "
-    "cancel at the retry instant, double cancel, cancel while running, cancel through every layer and combinator) with every single "
-    "pre-emption placement. Oracle over sequence numbers: True => cancelled ever after, no invocation and no delegate submit after "
-    "the return; running => False and normal completion; retry => no delegate submit after ANY cancel() returned; the request reaches "
-    "the innermost pending work except below f_nocancel. Non-trivial = a cancel whose call/return interval overlaps a hand-over, a "
-    "completion or a poll, or a cancel between retries. Distinct = digest of the case."
+    "recording source futures; 1-3 submissions whose callables may block on a gate so that 'running' is a program state; 1-3 threads "
+    "issuing cancel() - possibly repeatedly - at generated virtual times; a runner thread that runs/completes the manual jobs; tape; "
+    "clock mode). Enumerated: catalogue programs (cancel || hand-over, cancel || completion, cancel between retries, cancel at the "
+    "retry instant, double cancel, cancel while running, cancel while a slow retry policy judges a successful attempt, cancel through "
+    "every layer and combinator) with every single pre-emption placement. Oracle over sequence numbers: True => cancelled ever after, "
+    "no invocation and no delegate submit after the return; running => False and normal completion; retry => no delegate submit after "
+    "ANY cancel() returned; the request reaches the innermost pending work except below f_nocancel. Non-trivial = a cancel whose "
+    "call/return interval overlaps a hand-over, a completion or a poll, or a cancel between retries. Distinct = digest of the case."
 )
 ASSUMPTIONS = [
     "a start that overlaps the cancel() call itself is legal (then cancel() may return either value)",
